@@ -33,6 +33,7 @@ def evaluate(ck, data, rules, docg):
             sig = "%s/%s" % (cls(d["reread"]), cls(d["memory"]))
             if d["kind"] == "indent":
                 sig = "indent-of-" + cls(d["memory"])
+                blame = (o.get("indent_writers") or [blame])[0]  # the indent level is not part of the model: the rule that rewrote levels outside an update
             elif d["memory"] and d["memory"][0].endswith("parser.whitespace") and d["memory"][1] == "":
                 sig = "empty-whitespace-token"
             who = blame or ("@" + o["rel"])
